@@ -191,6 +191,13 @@ pub fn pinned(prop: &str) -> Vec<SProg> {
             v.push(sp(vec![vec![Join(1)], vec![Read, FailInAtomicMut(1), RwUnlock]]));
             v.push(SProg { threads: vec![vec![Lock(0), Lock(1), Unlock(1), Unlock(0)], vec![Lock(1), Lock(0), Unlock(0), Unlock(1)]], loom_arc: true, forget_rx: false, rx_owner: 0 });
             v.push(SProg { threads: vec![vec![Send(1), Park], vec![Write, Park, RwUnlock]], loom_arc: true, forget_rx: false, rx_owner: 0 });
+            // branch-limit crash points (max_branches = longest path - 1): the limit is hit by main while the other
+            // thread can still run, and main's unwind drops a loom::sync::Arc (a scheduling point in a destructor)
+            for loom_arc in [true, false] {
+                v.push(SProg { threads: vec![vec![ALoad(0), ALoad(0), ALoad(0), ALoad(0), Join(1)], vec![AStore(0, 1), AStore(0, 2), AStore(0, 3)]], loom_arc, forget_rx: false, rx_owner: 0 });
+                v.push(SProg { threads: vec![vec![Lock(0), Unlock(0), Lock(0), Unlock(0), Join(1)], vec![Lock(0), Unlock(0), Send(1)]], loom_arc, forget_rx: false, rx_owner: 0 });
+                v.push(SProg { threads: vec![vec![AStore(0, 1), Join(1), Join(2)], vec![ALoad(0), ALoad(0), ALoad(0)], vec![ALoad(0), AStore(1, 1)]], loom_arc, forget_rx: false, rx_owner: 0 });
+            }
         }
         "C07" => {
             v.push(sp(vec![vec![Lock(0), Incr(0), Unlock(0)], vec![Lock(0), Incr(0), Unlock(0)], vec![Lock(0), Incr(0), Unlock(0)]]));
@@ -558,11 +565,21 @@ fn branch_limit_crash_point(p: &SProg, rec: &mut Rec, tier: u8) {
     if l < 2 {
         return;
     }
-    let r = run_loom(p, &SCfg { max_branches: l - 1, keep_paths: false, ..cfg.clone() });
-    rec.runs += 1;
-    rec.iters += r.iters as u64;
-    if r.kind() != Some(PanicKind::BranchLimit) {
-        rec.v("missed_failure", "branch_limit", format!("longest decision path {}; max_branches = {} ended with {:?}", l, l - 1, r.kind().map(|k| k.short())));
+    // just below the need (the limit is hit at the end of the longest execution) and well below it (hit in the middle
+    // of the first execution, while other threads can still run)
+    let mut limits = vec![l - 1, (l / 2).max(1), (2 * l / 3).max(1)];
+    limits.dedup();
+    for m in limits {
+        let r = run_loom(p, &SCfg { max_branches: m, keep_paths: false, ..cfg.clone() });
+        rec.runs += 1;
+        rec.iters += r.iters as u64;
+        if r.kind() != Some(PanicKind::BranchLimit) {
+            rec.v("missed_failure", "branch_limit", format!("longest decision path {}; max_branches = {} ended with {:?}: {}", l, m, r.kind().map(|k| k.short()), r.panic.as_deref().unwrap_or("").lines().next().unwrap_or("")));
+            break;
+        }
+        if std::thread::panicking() {
+            break; // reported by the worker's panic-state monitor
+        }
     }
     let r = run_loom(p, &SCfg { max_branches: l, keep_paths: false, ..cfg });
     rec.runs += 1;
@@ -579,7 +596,7 @@ pub fn work(prop: &str, tier: u8, seed: u64, idx: usize) -> Rec {
         static FRESH: OnceLock<(Vec<Vec<u64>>, Vec<Vec<(u8, u8)>>, Vec<u64>, Option<String>, String)> = OnceLock::new();
         let fresh = FRESH.get_or_init(probe);
         judge(prop, &p, &mut rec, tier, false);
-        if idx % 4 == 0 && rec.viol.is_empty() && rec.status == "ok" {
+        if (idx % 4 == 0 || idx < core(prop, tier).len()) && rec.viol.is_empty() && rec.status == "ok" {
             branch_limit_crash_point(&p, &mut rec, tier);
         }
         // under valgrind the (expensive) probe runs after every 8th program only
